@@ -1,11 +1,19 @@
 (* C16 -- proofs: facade derivations obey the laws; instances discharge the primitive laws. *)
 From Coq Require Import List ZArith Bool Lia.
-From DuneV Require Import C16_Model C16_Spec.
+From DuneV Require Import Params_gen C16_Model C16_Spec.
 Import ListNotations.
 Local Open Scope Z_scope.
 
 (* ------------------------------------------------------------------ boolean comparison helper *)
+(* the operator tables come from Params_gen.v: unfold them to the concrete tokens of the current source *)
+Ltac c16_params :=
+  cbv beta iota delta [c16_cmp_code c16_neg_if
+    c16_param_ra_lt_conv c16_param_ra_lt_else c16_param_ra_le_conv c16_param_ra_le_else c16_param_ra_gt_conv c16_param_ra_gt_else
+    c16_param_ra_ge_conv c16_param_ra_ge_else c16_param_ra_diff_conv_negated c16_param_ra_diff_else_negated
+    c16_param_nf_lt c16_param_nf_le c16_param_nf_gt c16_param_nf_ge c16_param_ir_lt c16_param_ir_le c16_param_ir_gt c16_param_ir_ge
+    c16_param_dense_before_begin c16_param_dense_before_end_offset] in *.
 Ltac zb :=
+  c16_params;
   repeat match goal with
   | |- context [?x <? ?y] => destruct (Z.ltb_spec x y)
   | |- context [?x <=? ?y] => destruct (Z.leb_spec x y)
@@ -82,7 +90,7 @@ Proof.
   - unfold c16_ra_le. destruct conv; rewrite Hdist by assumption; zb.
   - unfold c16_ra_gt. destruct conv; rewrite Hdist by assumption; zb.
   - unfold c16_ra_ge. destruct conv; rewrite Hdist by assumption; zb.
-  - unfold c16_ra_diff. destruct conv; rewrite Hdist by assumption; lia.
+  - unfold c16_ra_diff. destruct conv; rewrite Hdist by assumption; c16_params; lia.
   - apply Hdec; assumption.
   - apply Hadv; assumption.
   - apply Hadv; assumption.
